@@ -137,6 +137,19 @@ def other3(a, b, c=3):
 part3 = functools.partial(other3, 10)
 
 
+def nestbase(a, b=2, _get=False):
+    def nested(a, b=4):
+        COUNT["nested"] += 1
+        return ("nested", [("a", _c(a)), ("b", _c(b))])
+    if _get:
+        return nested
+    COUNT["nestbase"] += 1
+    return ("nestbase", [("a", _c(a)), ("b", _c(b))])
+
+
+nested = nestbase(0, _get=True)      # its place in the store lies INSIDE the directory of nestbase
+
+
 async def acoro(a, b=5):
     COUNT["acoro"] += 1
     return ("acoro", [("a", _c(a)), ("b", _c(b))])
@@ -222,11 +235,12 @@ def gen_call(rng, fn, pool):
 def gen_history(rng, n_ops=14):
     funcs = gen_universe(rng, rng.choice([1, 2, 3]))
     pool = rng.sample(range(len(VALUES)), rng.randint(2, 5))
-    specials = ["meth1", "meth2", "part", "acoro", "part", "part2", "part3"]
+    specials = ["meth1", "meth2", "part", "acoro", "part", "part2", "part3", "nestbase", "nested"]
     p_special = 0.12
     if rng.random() < 0.12:
         # histories about callables that share one place in the store (partials; the two bound methods)
-        p_special = 0.8; specials = rng.choice([["part", "part2", "part3"], ["part", "part2"], ["meth1", "meth2", "part", "part3"]])
+        p_special = 0.8; specials = rng.choice([["part", "part2", "part3"], ["part", "part2"], ["meth1", "meth2", "part", "part3"],
+                                               ["nested", "nestbase"], ["nested", "nestbase", "meth1"]])
         pool = pool[:2]
     ops = []
     calls = []
